@@ -21,4 +21,4 @@ let () =
         | s -> raise (Bad ("constraint " ^ s)) in
       L [of_bool raised; of_cnf (Model.to_cnf irs); of_opb (Model.to_opb irs)]
                                          | _ -> raise (Bad "arity"));
-  register "forbid" (function [off; n; m; i; j] -> of_opt of_zl (bm_forbid (to_z off) (to_z n) (to_z m) (to_z i) (to_z j)) | _ -> raise (Bad "arity"))
+  register "forbid" (function [off; n; m; i; j] -> of_opt of_zl (vmap_forbid (to_z off) (to_z n) (to_z m) (to_z i) (to_z j)) | _ -> raise (Bad "arity"))
